@@ -26,6 +26,11 @@ from sympy.polys.rings import PolyRing
 from sympy.polys.domains import QQ
 
 
+class BudgetExceeded(BaseException):
+    """raised by the driver's SIGALRM handler: the per-obligation time budget is used up.  A BaseException so that no
+    `except Exception` (in /repo, in a contract, in the engine) can turn the checker's own timeout into a verdict"""
+
+
 class Undecided(Exception):
     """The engine cannot decide (unsupported operation, degenerate seed, budget): never a violation."""
 
